@@ -84,7 +84,7 @@ def generate(rng, i, force=None):
     exp = [exp[j] for j in lib_idx]
     usable = len(mem) - offset        # lead index must stay < len(mem)
     if usable < 2:
-        return generate(rng, i + 1, force)
+        return generate_single(rng, i + 1, force)
     nrolls = rng.randint(1, min(3, usable - 1))
     tod = rng.choice([0, 0, 10 * 3600, 23 * 3600 + 59 * 60])
     # roll window as listed (data): the shortest distance between a member's last-trading instant and its expiry
@@ -115,7 +115,7 @@ def generate(rng, i, force=None):
                 grid.append(x)
         grid = sorted(set(grid))
     if len(grid) < 3:
-        return generate(rng, i + 1, force)
+        return generate_single(rng, i + 1, force)
     spread = rng.choice([0, 0, 0.0005, 0.002])
     base = PRICE[cls]
     events = []
@@ -286,6 +286,10 @@ def execute(scenario):
             violate("unexpected_exception", "reset raised {}: {}".format(ep["reset"]["exc"], ep["reset"].get("msg")), exc=ep["reset"]["exc"], where="reset")
             break
         acts = [op["action"] for op in scenario["script"] if op["op"] == "step"]
+        last_lead = None            # a new episode starts wherever its first timestep lies (possibly before the last roll)
+        exec_in_window = set()
+        if ep is not h.episodes[0]:
+            probe("second_episode_starts_before_the_rolls_of_the_first")
         for st in ep["steps"]:
             if st["done_before"]:
                 break
@@ -422,4 +426,15 @@ def shrink_paths(scenario):
     return [("script",)]
 
 
-generate = gen_epi.with_backtest_driver(generate, 0.2)
+generate_single = gen_epi.with_backtest_driver(generate, 0.2)
+
+
+def generate(rng, i):
+    """What the engine runs: in a third of the runs the episode is played twice on the same environment (the second
+    one starts earlier than the first one ended, after at least one roll): whatever the first episode left in the
+    environment, its action space or the chain must not decide what the second one trades."""
+    sc = generate_single(rng, i)
+    if i % 3 == 0 and not sc.get("construct_only") and sc.get("driver") != "backtest":
+        sc["script"] = sc["script"] + [dict(op) for op in sc["script"]]
+        sc["meta"]["again"] = True
+    return sc
